@@ -243,7 +243,7 @@ def read_cache(path):
         ctime, mtime, dev, ino, mode, size, digest, nlen = struct.unpack(fmt, data[pos:pos + sz])
         name = data[pos + sz:pos + sz + nlen]
         pos += sz + nlen
-        recs.append((name, (ino, mtime, size, mode), digest))
+        recs.append((name, (ino, ctime, mtime, size, mode), digest))
     if pos != len(data):
         recs.append(("?trailing-garbage",))
     return recs
@@ -379,7 +379,7 @@ class Replay:
         for p in TOP + SUB:
             if mt[p][0] in ("file", "link"):
                 st = os.lstat(self.path(p))
-                self.statmap[(st.st_ino, st.st_mtime_ns, st.st_size, st.st_mode)] = mt[p][-1]
+                self.statmap[(st.st_ino, st.st_ctime_ns, st.st_mtime_ns, st.st_size, st.st_mode)] = mt[p][-1]
 
     def plain_vs_canon(self, ct, where):
         h = self.bu.hashDirectory(self.root)
